@@ -247,7 +247,19 @@ def _mk_contains_sound(d, k, converse=False):
         def stub_proj(point, curve, ts=ts):
             return tuple(ts)
 
-        with h.stubs({(Projection, "point_on_curve"): staticmethod(stub_proj)}):
+        def stub_abs(pt):
+            # contract of Point2D.__abs__ (proved: L0.point-abs): the Euclidean norm
+            import z3 as _z3
+            from ..symx import lift as _lift
+
+            eng = Engine.cur
+            s_ = eng.fresh_real("norm", "F")
+            n_ = _lift(pt[0] * pt[0] + pt[1] * pt[1])
+            eng.assume(_z3.And(s_.t >= 0, s_.t * s_.t == n_, n_ >= 0))
+            return s_
+
+        h.assumed_contract("abs(Point2D) is the Euclidean norm: s >= 0, s*s = x*x + y*y (proved: L0.point-abs)")
+        with h.stubs({(Projection, "point_on_curve"): staticmethod(stub_proj), (Point2D, "__abs__"): stub_abs}):
             res = Point2D(*p) in seg
         near = []
         for t in ts:
